@@ -181,8 +181,8 @@ func Run(r *rt.Run) error {
 			lab.w.Close()
 		}
 	}()
-	t := r.NewTrace("seq")  // exhaustive singles and pairs
-	tx := r.NewTrace("mix") // targeted two-task histories, triples, random histories
+	t := r.NewTrace("seq")  // exhaustive singles, pairs, sampled deeper pairs and triples
+	tx := r.NewTrace("mix") // targeted two-task histories and random histories
 	tc := r.NewTrace("conc")
 
 	singleLen, pairLen, pairDeepLen, nPairsDeep, tripleLen, nTriples, tripleDeepLen, nTriplesDeep, nInterf := 4, 3, 4, 8, 4, 6, 0, 0, 4
@@ -238,14 +238,14 @@ func Run(r *rt.Run) error {
 	rshape := func() Shape { return catalogue[r.Rand.Intn(len(catalogue))] }
 	// a seeded sample of pairs one step deeper
 	for n := 0; n < nPairsDeep; n++ {
-		explore(tx, map[string]Shape{"t1": rshape(), "t2": rshape()}, pairDeepLen)
+		explore(t, map[string]Shape{"t1": rshape(), "t2": rshape()}, pairDeepLen)
 	}
 	// triples: seeded samples of shape triples, every history
 	for n := 0; n < nTriples; n++ {
-		explore(tx, map[string]Shape{"t1": rshape(), "t2": rshape(), "t3": rshape()}, tripleLen)
+		explore(t, map[string]Shape{"t1": rshape(), "t2": rshape(), "t3": rshape()}, tripleLen)
 	}
 	for n := 0; n < nTriplesDeep; n++ {
-		explore(tx, map[string]Shape{"t1": rshape(), "t2": rshape(), "t3": rshape()}, tripleDeepLen)
+		explore(t, map[string]Shape{"t1": rshape(), "t2": rshape(), "t3": rshape()}, tripleDeepLen)
 	}
 	systematic := count
 	for i := 0; i < nRandom; i++ {
